@@ -172,7 +172,7 @@ struct SessionsModel : Monitor {
 		if (d.dst.fam == AF_INET && d.dst.a[0] == 127) return;
 		if (lk.armed && !lk.sent) {
 			// did this emission carry (the beginning of) the expected packet?
-			if (is_rawf(d.data)) { if (d.data.size() >= 4 + lk.z.size() && !memcmp(&d.data[4], lk.z.data(), lk.z.size())) lk.sent = true; }
+			if (is_rawf(d.data)) { size_t n = std::min(d.data.size() - 4, lk.z.size()); if (d.data.size() > 4 && (n == lk.z.size() || d.data.size() >= 4096) && !memcmp(&d.data[4], lk.z.data(), n)) lk.sent = true; }   // raw frames are cut at the 4 KB send buffer: the lookup still found the owner
 			else { DnsMsg m2; Bytes p2; if (dns_parse_strict(d.data, m2).empty() && answer_payload(m2, p2) && p2.size() > 2 && p2.size() - 2 <= lk.z.size() && !memcmp(&p2[2], lk.z.data(), p2.size() - 2)) lk.sent = true; }
 		}
 		if (is_rawf(d.data)) {
